@@ -639,14 +639,17 @@ fn run_for<P: Property>(p: &P, case: &P::Case, class: &str, cause: &str, flaky: 
     // a probabilistic violation may surface through different observations (causes) from run to run
     let same = |r: &Report| r.violation.as_ref().map(|v| v.class == class).unwrap_or(false);
     let _ = cause;
+    // every execution on a freshly spawned thread: a candidate must fail on its own, not because of what earlier
+    // candidates left behind in thread-local state of the code under test (a minimised case that only fails on the
+    // minimiser's thread does not replay)
     if !flaky {
-        return p.run(case);
+        return run_with_history(p, &[], case);
     }
     let mut hits = 0;
     let mut last_hit = None;
     let mut last = Report::default();
     for _ in 0..4 {
-        let r = p.run(case);
+        let r = run_with_history(p, &[], case);
         if same(&r) {
             hits += 1;
             last_hit = Some(r);
@@ -1043,10 +1046,10 @@ pub fn check<P: Property>(p: &P, tier: Tier) -> i32 {
         let cs = case_seed(seed, p.id(), bname, *idx);
         let case = p.gen(bname, *idx, cs);
         let flaky = p.flaky_class(class);
-        let mut rep0 = p.run(&case);
+        let mut rep0 = run_with_history(p, &[], &case);
         let mut tries = 0;
         while flaky && tries < 40 && rep0.violation.as_ref().map(|v| &v.class) != Some(class) {
-            rep0 = p.run(&case);
+            rep0 = run_with_history(p, &[], &case);
             tries += 1;
         }
         if rep0.violation.as_ref().map(|v| (&v.class, flaky || &v.cause == cause)) != Some((class, true)) {
@@ -1221,7 +1224,7 @@ pub fn check<P: Property>(p: &P, tier: Tier) -> i32 {
                 min_case
             }
         };
-        let final_rep = if flaky { min_rep.clone() } else { p.run(&min_case) };
+        let final_rep = if flaky { min_rep.clone() } else { run_with_history(p, &[], &min_case) };
         let dir = verif_root().join("replays");
         let _ = std::fs::create_dir_all(&dir);
         let path = dir.join(format!(
